@@ -1,6 +1,6 @@
 -------------------------------- MODULE ConnIsoTrace --------------------------------
 (* Trace validation for ConnIso: every recorded real execution (one scheduler step of one real thread per event) must be
-   a behaviour of ConnIso!Spec.  A trace = [s, mx, ev, obs]: s = scripts (sequence indexed by connection), mx, ev = the
+   a behaviour of ConnIso!Spec.  A trace = [s, mx, sh, ev, obs]: s = scripts (sequence indexed by connection), mx, ev = the
    steps in the order they were taken, [k |-> "L" | "C" | "H" | "X", c |-> connection (0 for the loop), lab |-> the park
    label the real thread reached], obs = per connection the client-observed history <<kind, value>>.
    Registers: 2*tid -> number of events matched; 2*tid+1 -> clause names false in some state on the way, plus "obs" when
@@ -12,7 +12,7 @@ tvars == <<vars, tid, l>>
 LoopLab(p) == CASE p = "start" -> "start" [] p = "accept" -> "accept" [] p = "done" -> "EXIT" [] OTHER -> "acq"
 HLab(p) == CASE p = "fin" -> "acq" [] p = "done" -> "EXIT" [] OTHER -> p
 CLab(p) == CASE p = "wait" -> "io" [] p = "done" -> "EXIT" [] OTHER -> p
-TraceInit == tid \in 1..Len(Traces) /\ l = 1 /\ InitWith(Traces[tid].s, Traces[tid].mx)
+TraceInit == tid \in 1..Len(Traces) /\ l = 1 /\ InitWith(Traces[tid].s, Traces[tid].mx, {Traces[tid].sh[i] : i \in 1..Len(Traces[tid].sh)})
 Evs == Traces[tid].ev
 Ev == Evs[l]
 TraceNext == /\ l <= Len(Evs) /\ l' = l + 1 /\ UNCHANGED tid
